@@ -4,7 +4,7 @@ from .common import *
 RULE = ("random histories over complete lifetimes of 1..4-level keys (uniform and mixed heights, H2 hook height and H5): steps are "
         "sign/accept, sign/reject, sign with malformed key, retry with another message, in-memory try_sign, lifetime query; the harness-side "
         "ghost set records (level, tree identifier, leaf) -> content for every released signature; a history is non-trivial when it contains at least "
-        "one rejected or failed step between two released signatures")
+        "one rejected or failed step between two released signatures; child-tree derivation (hook) for parent leaves over the whole 25-bit range incl. 255..257, 65535..65537, 2^20, 2^24, 2^25-1: equals the hash-sigs derivation and is pairwise distinct")
 ASSUMPTIONS = ["tree identifiers are compared as bytes (the observable form of the property)",
                "each history step is one stateless call; the 'persisted key' is carried by the orchestrator exactly as a caller would"]
 
@@ -153,6 +153,28 @@ def run(ctx):
                 h.after_wipe_steps += 1
             if h.steps >= max_steps or h.after_wipe_steps > 6:
                 h.done = True
+    # child trees of one parent: distinct leaves must yield distinct (seed, tree identifier) - checked for leaf indices across the
+    # whole 25-bit range (tall parents cannot be walked leaf by leaf in a history), against the independent derivation
+    import rfc8554 as R
+    qs = [0, 1, 5, 255, 256, 257, 65535, 65536, 65537, 65541, 131077, 2 ** 20 - 1, 2 ** 20 + 5, 2 ** 24 + 5, 2 ** 25 - 1] + \
+        [rng.randrange(2 ** 25) for _ in range(6 if ctx.tier == "quick" else 60)]
+    dcases = []
+    for i, H in enumerate(ALL_H):
+        sd, idn = rng.bytes_(HASHES[H]), rng.bytes_(16)
+        for q in qs:
+            dcases.append(Case("child H=%s seed=%s id=%s q=%d" % (H, sd.hex(), idn.hex(), q), "derive/child-of-leaf", {"x": (H, sd, idn, q)}))
+    seen = {}
+    for c, a, b in ctx.both(dcases, None):
+        H, sd, idn, q = c.meta["x"]
+        es, ei = R.child_seed_id(H, sd, idn, q)
+        exp = "ok seed=%s id=%s" % (es.hex(), ei.hex())
+        if a != exp:
+            ctx.fail("child tree derivation differs from the hash-sigs derivation", [c.line], a, exp)
+        prev = seen.get((H, sd, a))
+        if prev is not None and prev != q:
+            ctx.fail("one-time key (level, tree identifier, leaf) signed two different contents: two parent leaves derive the same child tree",
+                     [c.line, "child H=%s seed=%s id=%s q=%d" % (H, sd.hex(), idn.hex(), prev)], "leaves %d and %d -> %s" % (prev, q, a), "distinct child trees")
+        seen[(H, sd, a)] = q
     ctx.extra["histories"] = len(hists)
     ctx.extra["released_signatures"] = sum(h.released for h in hists)
     ctx.extra["releases_preceded_by_failed_or_rejected_steps"] = nontrivial
